@@ -9,8 +9,34 @@ static bool local_plain_small(Block* b) {
 }
 static int take_error(int bit) { int n = (T->got_err_mask & bit) ? T->got_err_count : 0; T->got_err_mask &= ~bit; if (!T->got_err_mask) T->got_err_count = 0; return n; }
 
+static bool has_live_neighbour(const uint8_t* p, size_t usable, int heap, const Block* self) {
+  for (auto& kv : H.live) { Block* o = kv.second; if (o != self && o->prog == T->prog && o->heap == heap && (((uintptr_t)o->p ^ (uintptr_t)p) >> 16) == 0 && o->usable == usable) return true; }
+  return false;
+}
+
 void oracle_misuse_op(const Op& op) {
   if (!is_padded_build()) { H.ops_noop++; return; }
+  if (op.code == OP_double_free && (op.b & 2)) {
+    // fire: the second free of a block that was freed (once) earlier and whose address has not been handed out since
+    for (size_t i = 0; i < H.zombies.size(); i++) {
+      Harness::Zombie z = H.zombies[i];
+      if (z.prog != T->prog) continue;
+      H.zombies.erase(H.zombies.begin() + (long)i);
+      if (z.reissued || z.heap < 0 || !H.heaps[z.heap].alive || !has_live_neighbour(z.p, z.usable, z.heap, nullptr)) { H.ops_noop++; return; }
+      mi_heap_t* zh = heap_ptr(z.heap);
+      const size_t used0 = heap_used_sum(zh, nullptr);
+      H.misuse_expected++;
+      expect_errors(EB_EAGAIN);
+      mi_free(z.p);
+      int n = take_error(EB_EAGAIN);
+      if (n != 1) sim_violation("double_free_undetected", "a second mi_free(%p) some operations after the first one (the block was not handed out in between and its page still holds another live block) was %s (EAGAIN reported %d times)", (void*)z.p, n == 0 ? "not reported" : "reported more than once", n);
+      if (heap_used_sum(zh, nullptr) != used0) sim_violation("double_free_effect", "a detected double free changed the heap's used count (%zu -> %zu)", used0, heap_used_sum(zh, nullptr));
+      H.misuse_detected++; probe(PR_misuse_detected);
+      verify_all_live("after a detected late double free");
+      return;
+    }
+    H.ops_noop++; return;
+  }
   Block* b = (op.slot >= 0 && op.slot < (int)H.slots.size()) ? H.slots[op.slot] : nullptr;
   if (!local_plain_small(b)) { H.ops_noop++; return; }
   mi_heap_t* h = heap_ptr(b->heap);
@@ -20,6 +46,10 @@ void oracle_misuse_op(const Op& op) {
     for (auto& kv : H.live) { Block* o = kv.second; if (o != b && o->prog == T->prog && o->heap == b->heap && (((uintptr_t)o->p ^ (uintptr_t)b->p) >> 16) == 0 && o->usable == b->usable) neighbour = true; }
     if (!neighbour) { H.ops_noop++; return; }
     block_verify(b, "before the double free"); model_remove(b); H.slots[b->slot] = nullptr;
+    if (op.b & 1) {   // arm: only the first free now; a later 'fire' performs the second one
+      H.zombies.push_back(Harness::Zombie{b->p, b->usable, b->heap, T->prog, false});
+      void* p1 = b->p; delete b; mi_free(p1); return;
+    }
     const size_t used0 = heap_used_sum(h, nullptr);
     void* p = b->p; delete b;
     H.misuse_expected++;
